@@ -25,6 +25,7 @@ class OidTheory:
         self.below = F("oid_below", OID, OID, Bool)     # below(x, r): r is a prefix of x (x == r included)
         self.olen = F("oid_len", OID, Int)
         self.lits = {}
+        self._textprefix = None
         x, y, z, r, r2 = [z3.Const(n, OID) for n in ("x", "y", "z", "r", "r2")]
         lt, below = self.lt, self.below
         A = z3.ForAll
@@ -52,6 +53,15 @@ class OidTheory:
         rt.contains_hooks["SOid"] = self._contains
         rt.str_hooks["SOid"] = lambda rt_, i, v: SStr(rt_.f_oidstr(v.e))
         self._cls = None
+
+    def textprefix(self, a, b):
+        """str(a).startswith(str(b)) for dotted OID texts: an uninterpreted predicate that the node-wise
+        prefix implies (and nothing more: "1.3.61" starts with "1.3.6" without lying below it)."""
+        if self._textprefix is None:
+            self._textprefix = z3.Function("oid_text_startswith", OID, OID, Bool)
+            x, r = z3.Const("x", OID), z3.Const("r", OID)
+            self.rt.theory.add("oid:text-prefix", z3.ForAll([x, r], z3.Implies(self.below(x, r), self._textprefix(x, r))))
+        return self._textprefix(a, b)
 
     def oid_class(self, interp):
         if self._cls is None:
